@@ -314,6 +314,10 @@ prop(
     huge=[
         dict(what="cipher:XChaCha20", len=4 * (1 << 30) + 3, pre=27),
         dict(what="cipher:ChaCha20", len=2 * (1 << 30) + 5),
+        dict(what="cipher:ChaCha8", len=4 * (1 << 30) + 1024 + 5, pre=0),
+        dict(what="cipher:XChaCha8", len=5 * (1 << 30) + 300, pre=63, tiers=("thorough",)),
+        dict(what="exhaust:Ietf", len=(1 << 38) + 64, seek=0, timeout=20),
+        dict(what="exhaust:Ietf", len=(1 << 38) + 1, timeout=20),
         dict(what="cipher:ChaCha8", len=3 * (1 << 30) + 77, pre=70, tiers=("thorough",)),
         dict(what="cipher:ChaCha12", len=4 * (1 << 30), pre=10, tiers=("thorough",)),
         dict(what="cipher:Ietf", len=4 * (1 << 30) + 1, pre=63, tiers=("thorough",)),
@@ -476,7 +480,9 @@ prop(
         Cross("chacha_block", "C14", "release", 20000, 200000, QUICK_FIXED, ALL_FIXED, max_ops=32),
         Cross("vecops", "C03", "release", 100000, 2000000, ["portable", "std-native"], ["portable", "nostd-sse2", "nostd-avx2", "std-native"], max_ops=40),
     ],
-    be_host={"quick": (1, "cipher,jh1"), "thorough": (2, "block,cipher,hash")},
+    # (vector-operation programs are not compared on the big-endian host: the portable backend's storage views are not
+    # endian-neutral - the root cause of the open JH finding - so every program diverges at its first 64/128-bit view)
+    be_host={"quick": [(BE_TARGET, 1, "cipher,jh1"), (I686_TARGET, 1, "vecops")], "thorough": [(BE_TARGET, 2, "block,cipher,hash"), (I686_TARGET, 3, "cipher,vecops")]},
 )
 
 
@@ -511,6 +517,7 @@ prop(
         dict(what="hash:Groestl256", len=2 * (1 << 30) + 81),
         dict(what="cipher:ChaCha20", len=4 * (1 << 30) + 3, pre=27),
         dict(what="cipher:XChaCha12", len=2 * (1 << 30) + 9, pre=0),
+        dict(what="cipher:ChaCha12", len=4 * (1 << 30) + 777, pre=5),
         dict(what="hash:Groestl512", len=2 * (1 << 30) + 200, pre=5, tiers=("thorough",)),
         dict(what="hash:Groestl224", len=4 * (1 << 30) + 64, tiers=("thorough",)),
         dict(what="hash:Blake256", len=2 * (1 << 30) + 81, pre=1, tiers=("thorough",)),
@@ -923,8 +930,25 @@ def run_be_layer(pid, spec_be, tier, sd, replay_dir, results, violations, known)
     t0 = time.time()
     rc_le, out_le, err_le = be_run(sd, scale, sections, False)
     if rc_le != 0:
-        log(err_le[-2000:])
-        raise HarnessError("the little-endian twin of the big-endian host failed (rc=%s)" % rc_le)
+        # the twin is the same operation list on the native host: it passes on the unchanged tree, so a failure here is
+        # the library failing natively (e.g. a panic in an in-contract call), reported as such
+        tail = "\n".join(l for l in err_le.splitlines() if l.strip())[-900:]
+        if "panicked" not in err_le and "error" in err_le and "could not compile" in err_le:
+            log(err_le[-2000:])
+            raise HarnessError("the native twin of the %s does not build" % hostname)
+        sig = "native twin of the foreign-host program fails:%s" % ("panic" if "panicked" in err_le else "abnormal exit")
+        f = dict(kind="miri_be", verif_seed=sd, scale=scale, sections=sections, target=target, ops=[], minimised_from=0,
+                 violation=dict(properties=[pid], invariant="B0", signature=sig, at_op=0, detail="the operation list (%s) fails on the native host: %s" % (sections, tail)))
+        path = os.path.join(replay_dir, "%s-twin-%s.json" % (pid, hashlib.sha1((sig + sections).encode()).hexdigest()[:8]))
+        json.dump(f, open(path, "w"))
+        f["replay"] = path
+        kf = open_finding_for(pid, sig)
+        if kf:
+            known.append((kf, f))
+        else:
+            violations.append(f)
+        results.append(dict(host=HOST_DESCR[target], sections=sections, scale=scale, native_twin_failed=True))
+        return 0
     rc_be, out_be, err_be = be_run(sd, scale, sections, True, target)
     le = [l for l in out_le.splitlines() if l.startswith("T ")]
     be = [l for l in out_be.splitlines() if l.startswith("T ")]
@@ -1346,9 +1370,10 @@ def finish(pid, tier, sd, spec, wall, total_runs, total_ops, states, counters, n
         fh.write("\n")
     if harness_error:
         print("HARNESS-ERROR: %s" % harness_error)
-        return 2
     if violations:
-        return 1
+        return 1  # a violation that was found and written stays a violation even if a later layer could not run
+    if harness_error:
+        return 2
     print("OK property=%s tier=%s runs=%d ops=%d states=%d wall=%.1fs" % (pid, tier, total_runs, total_ops, len(states), wall))
     return 0
 
@@ -1402,7 +1427,7 @@ def replay(pid, path):
             print("VIOLATION property=%s replay=%s" % (pid, path))
             print("  " + [f for f in viol if f["violation"]["signature"] == sig][0]["violation"]["detail"][:500])
             return 1
-        print("OK replay: the big-endian host agrees on this tree")
+        print("OK replay: the foreign host and its native twin agree on this tree")
         return 0
     if j.get("kind") == "miri_mem":
         rc, out = miri_mem_run(j["base_seed"], j["parts"], j["miri_seed"], j["miri_seed"] + 1)
